@@ -432,7 +432,7 @@ pub fn run_tw(sliding: bool, start: u64, d: u64, cap: usize, base: u64, ops: &[(
             TwOp::Add => {
                 // the span of the window: what the constructor was given, or, once `record` has
                 // moved it, what the public fields say
-                let (s, en) = if recorded { (w.start_time, w.end_time) } else { (start_abs, start_abs + d) };
+                let (s, en) = if recorded { (w.start_time, w.end_time) } else { (start_abs, start_abs.saturating_add(d)) };
                 let acc = w.add_event(e);
                 if acc {
                     r.obs.accepted += 1;
@@ -448,7 +448,7 @@ pub fn run_tw(sliding: bool, start: u64, d: u64, cap: usize, base: u64, ops: &[(
                 }
                 r.obs.steps_monitored += 1;
                 let n = snap(w.events().iter());
-                if !recorded && (w.start_time != start_abs || w.end_time != start_abs + d) {
+                if !recorded && (w.start_time != start_abs || w.end_time != start_abs.saturating_add(d)) {
                     r.flag(i, "add_event", "span-of-window-is-not-start-plus-duration", || {
                         format!(
                             "window built with start {} and duration {} reports span [{}, {})",
